@@ -18,13 +18,19 @@ EXTENDS Sequences, FiniteSets, TLC, Json, IOUtils
 VARIABLE dummy
 R == JsonDeserialize(IOEnv.TRACE_FILE)
 Errors == {"TypeError", "ValueError"}
-Names == <<"RefusedKeepsValues">>
+\* Reader level of "every schema-valid lexical form met in a document can be read": a record with out = "respelled" comes from ONE saved
+\* file opened twice - as the library spelled it, and RESPELLED as another producer may spell it, value for value the same by the
+\* schema (hexBinary colours in lower case, xsd:boolean "1" / "0" as "true" / "false"); lost = the catalogued properties of the object
+\* whose readers do not return the same from both ("open" when the respelled file does not open).
+Names == <<"RefusedKeepsValues", "RespelledFormsReadable">>
 Holds(n, r) == CASE n = "RefusedKeepsValues" -> (r.out \in Errors) => r.lost = <<>>
+                 [] n = "RespelledFormsReadable" -> (r.out = "respelled") => r.lost = <<>>
 Failing(r) == {Names[i] : i \in {j \in DOMAIN Names : ~Holds(Names[j], r)}}
 Bad == {k \in DOMAIN R.recs : Failing(R.recs[k]) # {}}
 ASSUME \A k \in Bad : PrintT(<<"VERDICT", ToJson([id |-> R.recs[k].id, k |-> k, failing |-> Failing(R.recs[k])])>>)
 ASSUME PrintT(<<"SUMMARY", ToJson([recs |-> Len(R.recs), rejected |-> Cardinality(Bad),
-                                   refused |-> Cardinality({k \in DOMAIN R.recs : R.recs[k].out \in Errors})])>>)
+                                   refused |-> Cardinality({k \in DOMAIN R.recs : R.recs[k].out \in Errors}),
+                                   respelled |-> Cardinality({k \in DOMAIN R.recs : R.recs[k].out = "respelled"})])>>)
 Init == dummy = 0
 Next == UNCHANGED dummy
 =============================================================================
